@@ -69,6 +69,22 @@ def commentBody (body : Bytes) : Prop :=
 def piBody (body : Bytes) : Prop :=
   ∀ i, i < body.length → body.getD i 0 ≠ 60 ∧ (body.getD i 0 = 63 → (body ++ [63]).getD (i + 1) 0 ≠ 62)
 
+/-- serialisation of a prologue: processing instructions `<?body?>`, each followed by white space -/
+def prologue : List (Bytes × Bytes) → Bytes
+  | [] => []
+  | (body, ws) :: r => [60, 63] ++ (body ++ ([63, 62] ++ (ws ++ prologue r)))
+
+/-- every body is a `piBody`, every gap consists of white space -/
+def prologueOk : List (Bytes × Bytes) → Prop
+  | [] => True
+  | (body, ws) :: r => piBody body ∧ (∀ b ∈ ws, isSpace b = true) ∧ prologueOk r
+
+/-- the part of `parseDoc` behind the prologue: the root element is read at the cursor `p` -/
+def parseRootAt (t : Bytes) (p : Pos) : Res Elem :=
+  (readToken t p).bind fun r =>
+  if r.1.type ≠ .startTagBegin then .err r.1.pos.line r.1.pos.col .lt
+  else (parseElement t (t.length + 2) r.1.pos r.2.1).bind fun e => .ok e.1
+
 /-! ### line and column of an offset (what an error position must denote) -/
 
 /-- state of the line count after a prefix of the text: current line (1-based), offset at which
